@@ -47,7 +47,10 @@ type c20Plan struct {
 	// message and before its operator fetches the operation (which must still be offered)
 	// Overlap (n >= 3): the dump holds two overlapping rounds - a round with another threshold is proposed
 	// first, the re-initialised round (everybody) is proposed and completed next, the first one completes after it
-	Overlap     bool `json:"overlap,omitempty"`
+	Overlap bool `json:"overlap,omitempty"`
+	// SaveFault: when the proposer's operator hands in the machine's answer to the reinit operation, the node's state
+	// store refuses one write of the rounds; the request fails, the operator hands the same file in again
+	SaveFault   bool `json:"save_fault,omitempty"`
 	Reseed      bool `json:"reseed,omitempty"`
 	NodeRestart bool `json:"node_restart,omitempty"`
 	Restart     bool `json:"restart,omitempty"`  // the re-initialised airgapped machines are restarted (reopen + documented log replay) before they are asked to sign
@@ -68,6 +71,7 @@ func c20Gen(rt *rapid.T) c20Plan {
 		Overlap: rapid.IntRange(0, 4).Draw(rt, "overlap") == 0,
 		Reseed:  rapid.IntRange(0, 2).Draw(rt, "reseed") == 0, NodeRestart: rapid.IntRange(0, 2).Draw(rt, "nodeRestart") == 0,
 		Aborted: rapid.SampledFrom([]int{0, 0, 0, 1, 2}).Draw(rt, "aborted"), Old014: rapid.SampledFrom([]int{0, 0, 1, 2, 3, 4, 5, 6}).Draw(rt, "old014"), Twins: rapid.IntRange(0, 3).Draw(rt, "twins") == 0}
+	p.SaveFault = rapid.IntRange(0, 2).Draw(rt, "saveFault") == 0
 	if p.Overlap {
 		// a dump with two overlapping rounds is drawn without the other complications of a dump
 		p.Aborted, p.Junk, p.DupInit, p.Prior, p.Batches = 0, 0, false, false, 0
@@ -379,6 +383,7 @@ func c20Original(p c20Plan, root string) (o c20Orig) {
 }
 
 type c20Obs struct {
+	SaveFaulted bool // the first hand-in of the reinit answer met a failing write and was repeated
 	ForgedTaken bool // a node's replayed round holds the junk generator's forged commitment (D15 at work)
 	States      []string
 	Hashes      [][]byte
@@ -501,7 +506,46 @@ func c20Reinit(p c20Plan, o c20Orig, cfg world.Config, log []storage.Message) (o
 			return
 		}
 		obs.Hashes = append(obs.Hashes, reinitOps[0].ExtraData)
-		if res, err := w.Answer(i, reinitOps[0]); err != nil {
+		answerOp := w.Answer
+		if p.SaveFault && i == p.Proposer%w.N {
+			answerOp = func(i int, op *types.Operation) (*types.Operation, error) {
+				file, err := w.Nodes[i].OperationFile(op.ID)
+				if err != nil {
+					return nil, fmt.Errorf("getOperation: %w", err)
+				}
+				resFile, err := w.Machines[i].Process(file)
+				if err != nil {
+					return nil, fmt.Errorf("airgapped: %w", err)
+				}
+				var res types.Operation
+				if err := json.Unmarshal(resFile, &res); err != nil {
+					return nil, fmt.Errorf("result file: %w", err)
+				}
+				failed := false
+				w.Nodes[i].State.SetFault(func(op, key string) error {
+					if op == "set" && strings.HasSuffix(key, "_fsm_state") && !failed {
+						failed = true
+						return fmt.Errorf("input/output error (injected fault: write of %s)", key)
+					}
+					return nil
+				})
+				first := w.Nodes[i].SubmitResult(resFile)
+				w.Nodes[i].State.SetFault(nil)
+				if first == nil && failed {
+					return &res, fmt.Errorf("the node reported success although a write of its rounds failed")
+				}
+				if first == nil {
+					obs.Err = fmt.Errorf("harness: handing in the reinit answer made no write of the rounds")
+					return &res, nil
+				}
+				obs.SaveFaulted = true
+				if err := w.Nodes[i].SubmitResult(resFile); err != nil {
+					return &res, fmt.Errorf("submit, repeated after a failed write of the node's state (%v): %w", first, err)
+				}
+				return &res, nil
+			}
+		}
+		if res, err := answerOp(i, reinitOps[0]); err != nil {
 			why := ""
 			if res != nil && len(res.ResultMsgs) > 0 {
 				// the machine's own account of the failure travels in the error request it attached
@@ -703,6 +747,9 @@ func c20Run(t *testing.T, st *vstat.Stats, p c20Plan) *viol {
 	st.Class(fmt.Sprintf("adapt014=%v", p.Adapt014 || p.Recorded))
 	if p.Reseed {
 		st.Class("mnemonic-entered-twice-before-reinit")
+	}
+	if obs.SaveFaulted {
+		st.Class("reinit-answer-handed-in-again-after-a-failed-state-write")
 	}
 	if p.NodeRestart {
 		st.Class("nodes-restarted-with-the-reinit-operation-pending")
